@@ -79,25 +79,25 @@ theorem scopeEquiv_substModule (σ : Sigma) (A : UModule) (S : List UModule) :
       cases hd : d.ty <;> simp [substTy]
 
 theorem resolveValueRefs_subst (sc sc' : Scope) (σ : Sigma) (heq : ScopeEquiv sc sc')
-    (ha : Agrees sc σ) (h64 : SigmaI64 σ) (vrs : List UValueReference)
+    (ha : Agrees sc σ) (vrs : List UValueReference)
     (hs : ∀ v ∈ vrs, SafeTy sc σ v.ty) :
     sc'.resolveValueRefs (vrs.map (substVR σ)) = sc.resolveValueRefs vrs := by
   induction vrs with
   | nil => rfl
   | cons v tl ih =>
     simp only [List.map_cons, Scope.resolveValueRefs, substVR, resolveTy_congr heq,
-      resolveTy_subst sc σ ha h64 v.ty (hs v (by simp))]
+      resolveTy_subst sc σ ha v.ty (hs v (by simp))]
     rw [ih (fun x hx => hs x (by simp [hx]))]
 
 theorem resolveDefinitions_subst (sc sc' : Scope) (σ : Sigma) (heq : ScopeEquiv sc sc')
-    (ha : Agrees sc σ) (h64 : SigmaI64 σ) (ds : List UDefinition)
+    (ha : Agrees sc σ) (ds : List UDefinition)
     (hs : ∀ d ∈ ds, SafeTy sc σ d.ty) :
     sc'.resolveDefinitions (ds.map (substDef σ)) = sc.resolveDefinitions ds := by
   induction ds with
   | nil => rfl
   | cons d tl ih =>
     simp only [List.map_cons, Scope.resolveDefinitions, substDef, resolveTy_congr heq,
-      resolveTy_subst sc σ ha h64 d.ty (hs d (by simp))]
+      resolveTy_subst sc σ ha d.ty (hs d (by simp))]
     rw [ih (fun x hx => hs x (by simp [hx]))]
 
 /-- all default names of the table are fresh in every item of the module -/
@@ -107,11 +107,11 @@ def SafeModule (sc : Scope) (σ : Sigma) (A : UModule) : Prop :=
 /-- **subst**, one module in a scope of siblings: the module with value references and its
     literal variant resolve to the same `Model<Asn<Resolved>>` -/
 theorem tryResolve_substModule (σ : Sigma) (A : UModule) (S : List UModule)
-    (ha : Agrees ⟨A, S⟩ σ) (h64 : SigmaI64 σ) (hs : SafeModule ⟨A, S⟩ σ A) :
+    (ha : Agrees ⟨A, S⟩ σ) (hs : SafeModule ⟨A, S⟩ σ A) :
     Scope.tryResolve ⟨substModule σ A, S⟩ = Scope.tryResolve ⟨A, S⟩ := by
   have heq := scopeEquiv_substModule σ A S
-  have h1 := resolveValueRefs_subst ⟨A, S⟩ ⟨substModule σ A, S⟩ σ heq ha h64 A.valueReferences hs.1
-  have h2 := resolveDefinitions_subst ⟨A, S⟩ ⟨substModule σ A, S⟩ σ heq ha h64 A.definitions hs.2
+  have h1 := resolveValueRefs_subst ⟨A, S⟩ ⟨substModule σ A, S⟩ σ heq ha A.valueReferences hs.1
+  have h2 := resolveDefinitions_subst ⟨A, S⟩ ⟨substModule σ A, S⟩ σ heq ha A.definitions hs.2
   simp only [Scope.tryResolve]
   have e1 : (substModule σ A).valueReferences = A.valueReferences.map (substVR σ) := rfl
   have e2 : (substModule σ A).definitions = A.definitions.map (substDef σ) := rfl
